@@ -3,6 +3,7 @@ import Flowjaxv.Proofs.NetMassSpline
 import Flowjaxv.Proofs.PermMass
 import Flowjaxv.Proofs.Flows
 import Flowjaxv.Proofs.TriangularGen
+import Flowjaxv.Proofs.Wrappers
 /-!
 # C04 in `d` dimensions for `triangular_spline_flow`: elementwise layers, TriangularAffine, additive conditions, chains
 
@@ -483,3 +484,80 @@ theorem transformed_lift_logProb {K : Type} {b : Bij (List ℝ) C ℝ} {c : C} (
   rw [ofFn_nth _ n (by rw [h.invLd_fst]; exact h.len_inv _ (by simp))]
 
 end NetMass
+
+/-! ## weight normalisation keeps a triangular matrix with non-zero diagonal triangular with non-zero diagonal
+
+`triangular_spline_flow` wraps the triangular matrix in `WeightNormalization` (`eqx.tree_at(lambda t: t.triangular, tri_aff,
+replace_fn=WeightNormalization)`): after unwrap, row `i` is `scaleᵢ · rowᵢ / ‖rowᵢ‖` (the GENERATED `Wr.WeightNormalization.unwrap`),
+`scaleᵢ = softplus(raw) > 0`. -/
+namespace TriPf
+open Gen.Wr
+
+theorem entry_weightnorm {n : ℕ} (w : List (List ℝ)) (sc : List ℝ) (hw : w.length = n) (hs : sc.length = n) (i j : ℕ)
+    (hi : i < n) :
+    entry (⟨w, sc⟩ : WeightNormalization ℝ).unwrap i j
+      = sc.getD i 0 / Real.sqrt (Jnp.dot (w.getD i []) (w.getD i [])) * entry w i j := by
+  have hiw : i < w.length := by omega
+  have his : i < sc.length := by omega
+  rw [WrappersPf.wn_eq_rows]
+  unfold entry
+  have e1 : (List.zipWith (fun row s => (⟨row, s⟩ : WeightNormRow ℝ).unwrap) w sc).getD i []
+      = (⟨w[i], sc[i]⟩ : WeightNormRow ℝ).unwrap := by
+    simp [List.getD_eq_getElem?_getD, List.getElem?_zipWith, hiw, his]
+  have e2 : w.getD i [] = w[i] := by simp [List.getD_eq_getElem?_getD, hiw]
+  have e3 : sc.getD i 0 = sc[i] := by simp [List.getD_eq_getElem?_getD, his]
+  rw [e1, e2, e3]
+  have e : (⟨w[i], sc[i]⟩ : WeightNormRow ℝ).unwrap
+      = List.map (fun b => (sc[i] / Real.sqrt (Jnp.dot w[i] w[i])) * b) w[i] := by
+    unfold WeightNormRow.unwrap
+    simp only [RealInst.sqrt_eq, List.map_map]; congr 1; funext b; simp only [Function.comp]; ring
+  rw [e]
+  simp only [List.getD_eq_getElem?_getD, List.getElem?_map]
+  cases (w[i])[j]? <;> simp
+
+theorem square_weightnorm {n : ℕ} (w : List (List ℝ)) (sc : List ℝ) (hw : Square n w) (hs : sc.length = n) :
+    Square n (⟨w, sc⟩ : WeightNormalization ℝ).unwrap := by
+  rw [WrappersPf.wn_eq_rows]
+  refine ⟨by simp [hw.1, hs], fun r hr => ?_⟩
+  obtain ⟨i, hi, rfl⟩ := List.mem_iff_getElem.mp hr
+  simp only [List.getElem_zipWith, WeightNormRow.unwrap, List.length_map]
+  exact hw.2 _ (List.getElem_mem _)
+
+/-- the factor `scaleᵢ / ‖rowᵢ‖` is non-zero as soon as `scaleᵢ ≠ 0` and the row has a non-zero entry -/
+theorem weightnorm_factor_ne {n : ℕ} (w : List (List ℝ)) (sc : List ℝ) (hw : w.length = n) (i : ℕ) (hi : i < n)
+    (hd : entry w i i ≠ 0) (hs : sc.getD i 0 ≠ 0) :
+    sc.getD i 0 / Real.sqrt (Jnp.dot (w.getD i []) (w.getD i [])) ≠ 0 := by
+  refine div_ne_zero hs (Real.sqrt_ne_zero'.mpr (lt_of_le_of_ne (ParamsPf.jdot_self_nonneg _) (Ne.symm ?_)))
+  intro h0
+  have hall := ParamsPf.jdot_self_eq_zero.mp h0
+  apply hd
+  unfold entry
+  generalize w.getD i [] = row at hall ⊢
+  rw [List.getD_eq_getElem?_getD]
+  cases hr : row[i]? with
+  | none => rfl
+  | some v => simp only [Option.getD_some]; exact hall v (List.mem_of_getElem? hr)
+
+/-- **`TriangularAffine` with a weight-normalised matrix**: a triangular matrix with non-zero diagonal, every row rescaled by
+`WeightNormalization.unwrap` with non-zero scales (the library's are `softplus(raw) > 0`), is still `TriWF` -/
+theorem weightnorm_triWF {n : ℕ} {t : Tri.TriAffine ℝ} (h : TriWF n t) (sc : List ℝ) (hs : sc.length = n)
+    (hne : ∀ i < n, sc.getD i 0 ≠ 0) :
+    TriWF n ⟨(⟨t.triangular, sc⟩ : WeightNormalization ℝ).unwrap, t.loc, t.lower⟩ := by
+  obtain ⟨hloc, htri⟩ := h
+  have hsq := TriWF.sq ⟨hloc, htri⟩
+  refine ⟨hloc, ?_⟩
+  cases hl : t.lower
+  · rw [hl] at htri
+    simp only [Bool.false_eq_true, if_false] at htri ⊢
+    refine ⟨square_weightnorm _ _ hsq hs, fun i j hji hi => ?_, fun i hi => ?_⟩
+    · rw [entry_weightnorm _ _ hsq.1 hs i j hi, htri.zero i j hji hi, mul_zero]
+    · rw [entry_weightnorm _ _ hsq.1 hs i i hi]
+      exact mul_ne_zero (weightnorm_factor_ne _ _ hsq.1 i hi (htri.diag_ne i hi) (hne i hi)) (htri.diag_ne i hi)
+  · rw [hl] at htri
+    simp only [if_true] at htri ⊢
+    refine ⟨square_weightnorm _ _ hsq hs, fun i j hij hj => ?_, fun i hi => ?_⟩
+    · rw [entry_weightnorm _ _ hsq.1 hs i j (by omega), htri.zero i j hij hj, mul_zero]
+    · rw [entry_weightnorm _ _ hsq.1 hs i i hi]
+      exact mul_ne_zero (weightnorm_factor_ne _ _ hsq.1 i hi (htri.diag_ne i hi) (hne i hi)) (htri.diag_ne i hi)
+
+end TriPf
